@@ -121,7 +121,7 @@ type Corruption struct {
 var ByzKinds = map[string][]string{
 	"headers":    {"break-link", "low-work", "timestamp-past", "extra-remaining", "empty-with-remaining", "duplicate", "wrong-type", "garbage", "close"},
 	"blocks":     {"other-branch", "body-swap", "drop-txns", "too-few", "too-many", "reorder", "wrong-type", "garbage", "close", "foreign-last", "body-swap+hangup", "drop-txns+hangup", "too-few-not-last", "empty-not-last", "hostile-body"},
-	"checkpoint": {"non-v2", "wrong-id", "state-field", "state-work", "recommit", "wrong-type", "garbage", "close", "two-payouts", "payout-value", "v2-height"},
+	"checkpoint": {"non-v2", "wrong-id", "state-field", "state-work", "recommit", "wrong-type", "garbage", "close", "two-payouts", "payout-value", "v2-height", "no-payouts"},
 	// hostile-*: announcements that attach to the receiver's tip, meet the
 	// proof-of-work target where one applies, and carry extreme constants
 	// (MaxCurrency fees and outputs, MaxUint64 heights / sizes / leaf indices,
@@ -450,6 +450,10 @@ func (b *ByzPeer) Handle(id types.Specifier, s *gateway.Stream) {
 			blk.V2 = nil
 		case "two-payouts":
 			blk.MinerPayouts = append(blk.MinerPayouts, blk.MinerPayouts[0])
+		case "no-payouts":
+			// the genuine block without its miner payout: the v2 id does not
+			// bind the payouts, so only the explicit shape check refuses it
+			blk.MinerPayouts = nil
 		case "payout-value":
 			// genuine block and state, another payout value: neither the v2 id nor
 			// the commitment covers it (even arg: one hasting more, odd: a million
